@@ -29,7 +29,7 @@ type c20Case struct {
 	// Cuts are the byte offsets at which the text is divided into successive
 	// Write calls (sorted; duplicates give empty chunks).
 	Cuts []int `json:"cuts"`
-	// Fault: "none", "stop" (the sink accepts FaultAt bytes in total, then
+	// Fault: "none", "stop" / "stop-nil" (the sink accepts FaultAt bytes in total, then
 	// returns a short count and an error) or "err-after-accept" (the sink's
 	// FaultAt-th call accepts everything and still returns an error).
 	Fault   string `json:"fault"`
@@ -60,7 +60,7 @@ func (c20Driver) Info() core.Info {
 		},
 		Real:            []string{"indent.NewWriter", "(*iw).Write", "actualWrittenSize", "indent.String", "indent.Bytes"},
 		Stub:            []string{"underlying io.Writer (simulated sink with seeded stop point / error)", "caller's division into Write calls (seeded)"},
-		FaultKinds:      []string{"sink-stop-short", "sink-error-after-full-accept"},
+		FaultKinds:      []string{"sink-stop-short", "sink-stop-short-without-error", "sink-error-after-full-accept"},
 		InProcessShrink: true,
 	}
 }
@@ -121,6 +121,11 @@ func (c20Driver) Generate(t *tape.Tape, tier string) core.Case {
 	case 2:
 		c.Fault = "err-after-accept"
 		c.FaultAt = t.Intn(ncuts + 1)
+	}
+	if c.Fault == "stop" && t.Sub("nilerr").Chance(1, 5) {
+		// the sink stops short WITHOUT reporting an error (writers that break
+		// io.Writer's contract exist): the bytes still did not reach it
+		c.Fault = "stop-nil"
 	}
 	return c
 }
@@ -191,7 +196,7 @@ func (s *c20Sink) Write(p []byte) (int, error) {
 	call := s.calls
 	s.calls++
 	switch s.fault {
-	case "stop":
+	case "stop", "stop-nil":
 		room := s.at - len(s.accepted)
 		if room < 0 {
 			room = 0
@@ -199,6 +204,9 @@ func (s *c20Sink) Write(p []byte) (int, error) {
 		if len(p) > room {
 			s.accepted = append(s.accepted, p[:room]...)
 			s.failed = true
+			if s.fault == "stop-nil" {
+				return room, nil
+			}
 			return room, errSink
 		}
 	case "err-after-accept":
@@ -239,6 +247,12 @@ func (c20Driver) Run(cc core.Case) core.Outcome {
 		if p != "" {
 			nonEmptyPrefix = true
 		}
+	}
+	if c.Fault == "stop-nil" && !nonEmptyPrefix {
+		// NewWriter(w, "") is w itself: the contract-breaking sink would be
+		// judged, not the indenting writer
+		o.Discard = "writer-is-the-sink-itself"
+		return o
 	}
 	if len(c.Prefixes) > 1 {
 		o.Count("probe.nested_writers", 1)
@@ -298,6 +312,8 @@ func (c20Driver) Run(cc core.Case) core.Outcome {
 		switch c.Fault {
 		case "stop":
 			o.Count("fault.sink-stop-short", 1)
+		case "stop-nil":
+			o.Count("fault.sink-stop-short-without-error", 1)
 		case "err-after-accept":
 			o.Count("fault.sink-error-after-full-accept", 1)
 		}
